@@ -156,6 +156,8 @@ impl C09 {
         // one Context: a time value, then a further definitions file that defines one of the breakdown
         // units again, then time values: the breakdown obeys the law for the units as they are now
         fams.add("duration breakdown after a further load redefines a breakdown unit", vec![RELOADS.len() as u64, RELOAD_DURS.len() as u64, 2]);
+        // values that are floats (roots, fractional powers): the same law up to rounding
+        fams.add("float values", vec![FLOAT_LISTS.len() as u64]);
         C09 { fams, groups, big, vals, durs, time_units, long_lens, ctx: Lazy::new() }
     }
 
@@ -237,6 +239,11 @@ impl C09 {
 }
 
 const NEAR_K: [i64; 3] = [1, 3, 1000];
+/// Lists for values that are floats: the law holds up to rounding, and the whole parts are whole.
+const FLOAT_LISTS: [&str; 12] = [
+    "sqrt(2 hour^2) -> hour;min", "sqrt(10) hour -> hour;min;s", "sqrt(2) day -> day;hour;min;s", "2^0.5 mile -> mile;ft;inch", "-sqrt(3 hour^2) -> hour;min;s", "sqrt(7) kg -> kg;g",
+    "sqrt(2) week -> day;hour", "10^0.5 m -> m;cm;mm", "sqrt(5) hour -> min;hour", "exp(1) year -> year;day;hour", "sqrt(2) s -> hour;min;s", "1e30^0.5 s -> year;day",
+];
 const RELOADS: [&str; 5] = ["week 5 day\n", "year 365 day\n", "day 25 hour\n", "hour 50 minute\n", "minute 100 second\n"];
 const RELOAD_DURS: [&str; 6] = ["12 day", "400 day", "90061.5 s", "-36 hour", "1|3 year", "3e9 s"];
 const NONCONF_VALS: [&str; 3] = ["3", "0", "(5 - 5)"];
@@ -294,7 +301,7 @@ impl Space for C09 {
         Meta {
             id: "C09",
             level: "exploration",
-            rule: "for every dimensionality with >= 2 positive exact units, up to 6 units (largest, smallest, median, second smallest, a kilo-prefixed and a plural spelling): all ordered lists of length 2 and 3 with repetition x 11-13 rational values (0, +-1, +-1/3, +-7.5, +-1e-9, +-123456789.123, +-1e40); lists of length 4 (thorough 4-6) for time/length/mass/volume; every position of a non-conformable member and a non-conformable value, for the values 3, 0 and (5 - 5); time values for the automatic year/week/day/hour/minute/second breakdown (67 fixed ones plus k x unit +- {0, 1e-9, 1/2, frac/2, frac} s for k in {1,2,10,1000} and every breakdown unit); near-multiple values (k +- e) a -> a;b for every group and ordered pair, k in {1,3,1000}, e in {half the fractional part of a's base-unit value, 1e-12}, and the same in the second stage of 3-unit lists (a quotient computed on truncated operands is off by one exactly there). Plus histories on one context: (optionally a time query,) a further load that defines year/week/day/hour/minute again, then 6 time values, judged with the unit values the context has now. Oracle: the statement's four clauses on raw part values with unit values from the registry dump. Non-trivial = a law was judged; distinct by query text".into(),
+            rule: "for every dimensionality with >= 2 positive exact units, up to 6 units (largest, smallest, median, second smallest, a kilo-prefixed and a plural spelling): all ordered lists of length 2 and 3 with repetition x 11-13 rational values (0, +-1, +-1/3, +-7.5, +-1e-9, +-123456789.123, +-1e40); lists of length 4 (thorough 4-6) for time/length/mass/volume; every position of a non-conformable member and a non-conformable value, for the values 3, 0 and (5 - 5); time values for the automatic year/week/day/hour/minute/second breakdown (67 fixed ones plus k x unit +- {0, 1e-9, 1/2, frac/2, frac} s for k in {1,2,10,1000} and every breakdown unit); near-multiple values (k +- e) a -> a;b for every group and ordered pair, k in {1,3,1000}, e in {half the fractional part of a's base-unit value, 1e-12}, and the same in the second stage of 3-unit lists (a quotient computed on truncated operands is off by one exactly there). Plus histories on one context: (optionally a time query,) a further load that defines year/week/day/hour/minute again, then 6 time values, judged with the unit values the context has now. Plus 12 lists for float values (roots, fractional powers, exp), judged by the same clauses up to a relative 1e-9. Oracle: the statement's four clauses on raw part values with unit values from the registry dump. Non-trivial = a law was judged; distinct by query text".into(),
             assumptions: vec![
                 "negative-valued units (delisle_absolute, wire gauges g00..) are excluded: the sign clause is ill-posed for them".into(),
                 "any error kind counts as a refusal".into(),
@@ -309,6 +316,9 @@ impl Space for C09 {
     fn describe(&self, idx: u64) -> String {
         let (f, d) = self.fams.locate(idx);
         if f == self.fams.fams.len() - 1 {
+            return FLOAT_LISTS[d[0] as usize].to_string();
+        }
+        if f == self.fams.fams.len() - 2 {
             return format!("one context: {}load `{}`, then `{}`", if d[2] == 1 { "a time query, " } else { "" }, RELOADS[d[0] as usize].trim(), RELOAD_DURS[d[1] as usize]);
         }
         match self.plan(idx) {
@@ -329,6 +339,55 @@ impl Space for C09 {
         {
             let (f, d) = self.fams.locate(idx);
             if f == self.fams.fams.len() - 1 {
+                let q = FLOAT_LISTS[d[0] as usize];
+                let ctx = self.ctx.get(fresh_ctx);
+                let mut out = CaseOut::ok("float value").key(hash64(&("float", q)));
+                let (lhs, list) = q.split_once(" -> ").unwrap();
+                let total = match eval_q(ctx, lhs) {
+                    Ok(QueryReply::Number(p)) => p.raw_value.map(|r| r.value.to_f64()),
+                    Ok(QueryReply::Duration(dr)) => dr.raw.raw_value.map(|r| r.value.to_f64()),
+                    _ => None,
+                };
+                let total = match total {
+                    Some(t) => t,
+                    None => return out.viol("harness: the float value does not evaluate", q.to_string()),
+                };
+                let units: Vec<f64> = list.split(';').map(|n| ctx.lookup(n.trim()).map(|u| u.value.to_f64()).unwrap_or(f64::NAN)).collect();
+                match eval_q(ctx, q) {
+                    Ok(QueryReply::UnitList(l)) => {
+                        let parts: Vec<f64> = l.list.iter().map(|p| p.raw_value.as_ref().map(|r| r.value.to_f64()).unwrap_or(f64::NAN)).collect();
+                        let bad = |sig: &str, det: String| (sig.to_string(), format!("`{}`: {}; parts {:?}", q, det, parts));
+                        let mut errs = vec![];
+                        if parts.len() != units.len() {
+                            errs.push(bad("wrong number of parts", format!("{} parts for {} units", parts.len(), units.len())));
+                        } else {
+                            let mut sum = 0.0;
+                            for (i, (p, u)) in parts.iter().zip(&units).enumerate() {
+                                sum += p * u;
+                                if i + 1 < parts.len() && p.fract() != 0.0 {
+                                    errs.push(bad("non-final part is not an integer", format!("part {} = {}", i, p)));
+                                }
+                                if *p != 0.0 && (*p < 0.0) != (total < 0.0) {
+                                    errs.push(bad("part has the opposite sign", format!("part {} = {} for value {}", i, p, total)));
+                                }
+                                if i + 1 < parts.len() && (total - sum).abs() >= u.abs() * (1.0 + 1e-9) {
+                                    errs.push(bad("remainder not smaller than the unit just used", format!("after part {} the remainder is {} but the unit is {}", i, total - sum, u)));
+                                }
+                            }
+                            if !((sum - total).abs() <= 1e-9 * total.abs()) {
+                                errs.push(bad("parts do not sum to the value", format!("sum {} vs value {}", sum, total)));
+                            }
+                        }
+                        for (sg, dt) in errs {
+                            out = out.viol(format!("{} (float value)", sg), dt);
+                        }
+                    }
+                    Ok(o) => out = out.viol("unit list not answered as a list", format!("`{}` -> {}", q, reply_kind(&o))),
+                    Err(e) => out = out.viol("conformable unit list refused", format!("`{}`: {}", q, e)),
+                }
+                return out;
+            }
+            if f == self.fams.fams.len() - 2 {
                 let (reload, q) = (RELOADS[d[0] as usize], RELOAD_DURS[d[1] as usize]);
                 let mut ctx = fresh_ctx();
                 if d[2] == 1 {
